@@ -153,7 +153,7 @@ pub fn gen_plan(seed: u64, index: usize, _tier: Tier) -> Plan {
     let mut rng = Rng::new(seed, "c05-sampled");
     let mut p = base_plan(seed, rng.coin());
     p.net.lat_min_us = *rng.pick(&[200u64, 1_000, 5_000]);
-    p.gap_ms = *rng.pick(&[1u64, 10, 30]);
+    p.gap_ms = *rng.pick(&[1u64, 10, 30, 30, 700, 2_500]);
     if rng.coin() {
         p.grease_on_control = Some((rng.range(0, 1000), rng.usize(0, 40)));
     }
